@@ -405,8 +405,13 @@ func TestC01(t *testing.T) {
 		}
 		issued, ticked := 0, false
 		steps, complete, _ := runC01Lock(t, cfg, progs, func(step int, en []syAct) int {
+			// all the requests of a batch reach the server before any handler returns (8 workers busy at once)
 			nonU := -1
 			for i, a := range en {
+				if a.K == 'C' {
+					nonU = i
+					break
+				}
 				if a.K != 'U' && nonU < 0 {
 					nonU = i
 				}
